@@ -60,7 +60,23 @@ def op_names(pipe):
     return out
 
 
-def judge(V, cases, relevant, stats, family='', keep_traces=None):
+def tee_branches_alone(case):
+    """C08: 'the join of the branches' own outputs'.  For a top-level tee_map: every branch
+    as a pipeline of its own, over the same source events."""
+    pipe = case['pipe']
+    if len(pipe) != 1 or pipe[0]['op'] != 'tee' or 'multi' in case:
+        return None
+    return [dict(case, pipe=b, share_ops=False) for b in pipe[0]['branches'] if b]
+
+
+def isolation_holds(alone):
+    """True when every one of the `alone` cases is accepted by the contracts."""
+    trs = [run_case(c) for c in alone]
+    vs, st = C.validate_traces('MuxTrace', [slim(t) for t in trs], cfg_text=TRACE_CFG(False))
+    return all(v[0] == 'ACCEPT' for v in vs), st
+
+
+def judge(V, cases, relevant, stats, family='', keep_traces=None, isolation=None):
     """Run the cases on the real code, validate with TLC, record violations.
     relevant(clause_name) -> bool: does the clause witness a violation of *this* property.
     Returns the list of traces."""
@@ -108,9 +124,22 @@ def judge(V, cases, relevant, stats, family='', keep_traces=None):
             stats.setdefault('other_property_clauses', {})
             for _, n in other:
                 stats['other_property_clauses'][n] = stats['other_property_clauses'].get(n, 0) + 1
+        iso = False
+        if not mine and other and isolation is not None:
+            # operators inside the composite break their own contracts: is it the composite's
+            # doing?  Yes when the same inner pipelines, each run alone on the same source
+            # events, keep them.
+            alone = isolation(cases[i])
+            if alone:
+                ok, st3 = isolation_holds(alone)
+                for k in ('states', 'transitions', 'tlc_runs'):
+                    stats[k] += st3[k]
+                if ok:
+                    iso = True
+                    mine = [(p_, 'tee-branch-isolation') for (p_, _) in other[:1]]
         if mine:
             tr = traces[i]
-            V.violation({'family': family, 'ops': ' '.join(op_names(tr['pipe'])),
+            V.violation({'family': family, 'ops': ' '.join(op_names(tr['pipe'])), 'isolation': iso,
                          'pipe': json.dumps(tr['pipe'], sort_keys=True),
                          'mode': tr['mode'], 'src': tr['src'],
                          'timescale': cases[i].get('timescale'), 'multi': cases[i].get('multi'),
@@ -169,6 +198,14 @@ def replay(prop, path, relevant):
             return 1
         return 0
     v, _ = C.validate_traces('MuxTrace', [slim(tr)], cfg_text=TRACE_CFG(True))
+    if w.get('isolation') and v[0][0] == 'REJECT':
+        alone = tee_branches_alone(case)
+        ok = bool(alone) and isolation_holds(alone)[0]
+        print('in the tee_map: REJECT %s; branches alone: %s' % (v[0][2], 'ACCEPT' if ok else 'REJECT'))
+        if ok:
+            print('VIOLATION property=%s replay=%s clause=tee-branch-isolation' % (prop, path))
+            return 1
+        return 0
     print('pipeline :', ' '.join(op_names(case['pipe'])))
     print('source   :', json.dumps(case['src']))
     for t in tr['taps']:
